@@ -13,10 +13,10 @@ func init() {
 		Level: "Decides that a head chunk is visible to readers from the moment its reference is handed out: the reference is allocated and the write (direct or queued) is issued in one critical section, " +
 			"a queued chunk is registered in the queue's lookup table before the job is pushed and removed only after it was written, a directly written chunk enters the read-side buffer only after its " +
 			"bytes and CRC are in the write buffer (and a flush empties both together), Chunk() consults queue, buffer and m-mapped file in that order, and truncation only removes files below the requested sequence.",
-		Note:     "Trusted: go/packages, go/cfg; receiver-insensitive lock identification; rule tables in checker/c25.go.",
-		Covers:   "ChunkDiskMapper.WriteChunk/writeChunk/writeChunkViaQueue/flushBuffer/Chunk/Truncate/cut; chunkWriteQueue.addJob/processJob/get; lockset of mmappedChunkFiles, closers, chunkRefMap; CRC gate of Chunk and IterateAllChunks.",
-		NotCover: "schedules; byte layout of the chunk record; behaviour at actual crash points.",
-		Run:      runC25,
+		Note:           "Trusted: go/packages, go/cfg; receiver-insensitive lock identification; rule tables in checker/c25.go.",
+		Covers:         "ChunkDiskMapper.WriteChunk/writeChunk/writeChunkViaQueue/flushBuffer/Chunk/Truncate/cut; chunkWriteQueue.addJob/processJob/get; lockset of mmappedChunkFiles, closers, chunkRefMap; CRC gate of Chunk and IterateAllChunks.",
+		NotCover:       "schedules; byte layout of the chunk record; behaviour at actual crash points.",
+		Run:            runC25,
 		MinObligations: 25,
 	})
 }
@@ -78,8 +78,7 @@ func runC25(c *eng.Ctx) {
 			"tsdb/chunks:ChunkDiskMapper.IterateAllChunks": "start-up only (Head.Init, before the head is shared): callers checked below"}
 		c.CallersSubset("R2", "tsdb/chunks:ChunkDiskMapper.IterateAllChunks", 1, "tsdb:Head.loadMmappedChunks")
 		c.CallersSubset("R2", "tsdb:Head.loadMmappedChunks", 2, "tsdb:Head.Init", "tsdb:Head.removeCorruptedMmappedChunks")
-		c.GuardedBy("R2", "tsdb/chunks:ChunkDiskMapper.mmappedChunkFiles", "tsdb/chunks:ChunkDiskMapper.readPathMtx", eng.GuardOpts{Min: 8, Unlocked: unl,
-})
+		c.GuardedBy("R2", "tsdb/chunks:ChunkDiskMapper.mmappedChunkFiles", "tsdb/chunks:ChunkDiskMapper.readPathMtx", eng.GuardOpts{Min: 8, Unlocked: unl})
 		c.GuardedBy("R2", "tsdb/chunks:ChunkDiskMapper.closers", "tsdb/chunks:ChunkDiskMapper.readPathMtx", eng.GuardOpts{Min: 4, Unlocked: unl})
 		// a freshly cut file is m-mapped and registered before writes continue into it
 		cut := c.Fn("tsdb/chunks:ChunkDiskMapper.cut")
